@@ -21,8 +21,14 @@ namespace {
    const char* type_names[] = { "int", "int*", "class C", "int[4]", "void(int)", "as_type(T)" };
    constexpr int NT = 6;
 
+   // The second (or transient) Lexicon of an execution is not byte-for-byte the twin of the first: it starts by interning a word of its
+   // own, so that whatever it writes lands at other offsets than the first one's (two Lexicons sharing storage they should not
+   // share overwrite each other with DIFFERENT bytes, not with the same ones).
+   bool other_world = false;
+   struct Salted { explicit Salted(ipr::impl::Lexicon& l) { if (other_world) { (void) l.get_identifier(u8"the-other-lexicon-was-here"); (void) l.get_string(u8"0123456789-other"); } } };
    struct World {
       ipr::impl::Lexicon lex;
+      Salted salted{ lex };
       ipr::impl::Translation_unit unit{ lex };
       std::vector<const ipr::Type*> T;
       ipr::Qualifiers q[8];
@@ -132,11 +138,13 @@ namespace {
       int uni = 0;
       std::unique_ptr<World> second;
       const ipr::Type* second_cur = nullptr;
-      if (h.noise == 2) { second = std::make_unique<World>(); second_cur = second->T[h.t]; }
+      if (h.noise == 2) { other_world = true; second = std::make_unique<World>(); other_world = false; second_cur = second->T[h.t]; }
       for (std::size_t i = 0; i < h.masks.size(); ++i) {
          if (h.noise == 2) { second_cur = &second->lex.get_qualified(second->q[h.masks[i]], *second_cur); rep.count("transitions"); }
          if (h.noise == 3) {
+            other_world = true;
             World t;
+            other_world = false;
             const ipr::Type* c = t.T[h.t];
             for (std::size_t j = 0; j <= i; ++j) { c = &t.lex.get_qualified(t.q[h.masks[j]], *c); rep.count("transitions"); }
          }
